@@ -43,10 +43,11 @@ def _spec(module):
             'rules': [lambda units, R: bnd3._run(units['cJSON.c'], names3, R, 0)],
         }]
     if module == 'tree':
-        from . import tree, shape
+        from . import tree, shape, cmpfold
         return [{
             'units': {'cJSON.c': 'tree_bad.c', 'cJSON_Utils.c': 'utils_min.c'},
             'rules': [tree.tab3, tree.tab14, tree.eff6, tree.c12_structure, tree.lst4, tree.lst2, tree.lst3,
+                      lambda units, R: cmpfold.cmp1(units, R, unit_names=('cJSON.c',)),
                       lambda units, R: shape.shp1(units, R, editors=[
                           ('cJSON.c', 'bad_SHP1_detach', lambda u, f: shape._cases_detach_ptr(u, f, stray_case=False), 'remove the given element'),
                           ('cJSON.c', 'good_unlink', lambda u, f: shape._cases_detach_ptr(u, f, stray_case=False), 'remove the given element')])],
@@ -56,7 +57,8 @@ def _spec(module):
         return [{
             'units': {'cJSON.c': 'own_bad.c', 'cJSON_Utils.c': 'utils_min.c'},
             'rules': [lambda units, R: own.own_engine(units, R), own.own5, own.del1, own.own6, own.own7, own.own8,
-                      lambda units, R: own.own4_dangling(units, R, unit_names=('cJSON.c',)), parse.tab17],
+                      lambda units, R: own.own4_dangling(units, R, unit_names=('cJSON.c',)),
+                      lambda units, R: own.dbl1(units, R, unit_names=('cJSON.c',)), parse.tab17],
         }]
     if module == 'tables':
         from . import parse, codeset
